@@ -53,22 +53,26 @@ def mrRoundFast (n d c r : Nat) : Bool :=
     | (some b, _) => b
     | (none, tmp) => tmp == 1
 
-/-- the `for _ in 0..k` loop drawing its bases from the stream; `none` = stream exhausted -/
-def rounds (n d c : Nat) : Nat → NTV.Draw.Stream → Option Bool
-  | 0, _ => some true
+/-- the `for _ in 0..k` loop drawing its bases from the stream; returns the verdict and the
+unconsumed rest of the stream; `none` = stream exhausted -/
+def roundsS (n d c : Nat) : Nat → NTV.Draw.Stream → Option (Bool × NTV.Draw.Stream)
+  | 0, s => some (true, s)
   | k + 1, s =>
     match NTV.Draw.range 1 (n : Int) s with
     | none => none
-    | some (r, s') => if mrRoundFast n d c r.toNat then rounds n d c k s' else some false
+    | some (r, s') => if mrRoundFast n d c r.toNat then roundsS n d c k s' else some (false, s')
 
-/-- `is_prime(n)` with its draw stream -/
-def isPrime (n : Int) (s : NTV.Draw.Stream) : Option Bool :=
-  if n ≤ 1 then some false
-  else if n == 2 then some true
-  else if n % 2 == 0 then some false
+/-- `is_prime(n)` with its draw stream, returning also the rest of the stream -/
+def isPrimeS (n : Int) (s : NTV.Draw.Stream) : Option (Bool × NTV.Draw.Stream) :=
+  if n ≤ 1 then some (false, s)
+  else if n == 2 then some (true, s)
+  else if n % 2 == 0 then some (false, s)
   else
     let n := n.toNat
     let (d, c) := splitTwos n (n - 1) 0
-    rounds n d c 20 s
+    roundsS n d c 20 s
+
+/-- `is_prime(n)` with its draw stream -/
+def isPrime (n : Int) (s : NTV.Draw.Stream) : Option Bool := (isPrimeS n s).map (·.1)
 
 end NTV.Prime
